@@ -494,6 +494,21 @@ func propC06(t *rapid.T, e *Env) {
 	if msg := sameExceptRemoved(rc.M.Name, clean, ToNode(target), rem); msg != "" {
 		e.Fail(t, "C06 CopyTo does not write the remaining attributes as without the removal: %s; removed %s", msg, remString(rem))
 	}
+	// ---- CopyTo into a well-typed target that already holds values (null / unknown / known at any depth,
+	// as the framework decodes them): "never panics for a non-nil source and target", and no attribute
+	// type is missing, so no error is due
+	pre, err := GenObject(t, rc.Type, rc.B, OOpts{PAbsent: 45})
+	if err != nil {
+		t.Fatalf("%v", err)
+	}
+	pn := ToNode(pre)
+	d, p = rc.CopyTo(x, &pre)
+	if p != "" {
+		e.Fail(t, "C06 Copy%sToTerraform panicked on a pre-populated, well-typed target: %s; source %s; target %s", rc.M.Name, p, describe(rc, x), pn.String())
+	}
+	if errs := errorDiags(d); len(errs) > 0 {
+		e.Fail(t, "C06 Copy%sToTerraform returned error diagnostics although no attribute type is missing: %v; source %s; target %s", rc.M.Name, errs, describe(rc, x), pn.String())
+	}
 	e.Res.Class(fmt.Sprintf("from_corruptions:%d", min(fromSites, 5)))
 	e.Res.Class(fmt.Sprintf("to_removed:%d", min(c2.sites, 5)))
 	if fromDeep || fromSites >= 2 || c2.deep || c2.sites >= 2 {
